@@ -269,7 +269,11 @@ func (i *interpreter) decide(c *smt.Term) bool {
 	if i.cfg.Debug && i.curFr != nil {
 		i.sh.noteDecision(i.curFr.pos())
 	}
+	t0dbg := time.Now()
 	rT, _, eT := i.check(c, false, nil)
+	if i.cfg.Debug && time.Since(t0dbg) > 2*time.Second && i.curFr != nil {
+		fmt.Fprintf(os.Stderr, "slow decision at %s: cond=%s size=%d\n", i.curFr.pos(), smt.Body(c), c.Size())
+	}
 	var rF smt.Result
 	var eF string
 	if rT == smt.Unsat {
@@ -640,6 +644,9 @@ func (i *interpreter) runPath(entry *ssa.Function, prefix []decision) (res *path
 	i.panicSiteSet = false
 	i.fresh = 0
 	i.nameCount = map[string]int{}
+	i.fs = nil
+	i.hashes = nil
+	i.clock = 0
 	defer func() {
 		p := recover()
 		if p == nil {
@@ -661,6 +668,8 @@ func (i *interpreter) runPath(entry *ssa.Function, prefix []decision) (res *path
 					i.violation("hang", "budget", i.panicSite, p.what, nil, "concrete")
 				}
 			}
+		case crashPanic:
+			res.unsupported = "crash point reached outside zz.RunCrash"
 		case unsupported:
 			res.unsupported = string(p)
 		case engineBug:
